@@ -94,7 +94,7 @@ def mutate_json(r, tree):
 
 
 def run(ctx):
-    b = lib.standard_build(ctx, theorems=False)   # no Coq theorem for this property yet: see MANIFEST level
+    b = lib.standard_build(ctx)   # Properties/C10.v: termination of the modelled decoders (the model half); the runtime half is explored below
     if not lib.require_builds(ctx, b):
         return
     r = ctx.rng
